@@ -1086,9 +1086,10 @@ def balanced(t):
 _SUB = [0]
 
 
-def subcall(ex, st, fn, argv):
+def subcall(ex, st, fn, argv, with_state=False):
     """Run `fn` synchronously on a fork of `st` (used by models of std algorithms that call a crate-local closure several times).
-    Returns [(return value, extra path constraints)] for the returning paths; a possible panic is reported as the string "PANIC:..."."""
+    Returns [(return value, extra path constraints)] for the returning paths ([(value, constraints, post-state)] with `with_state`,
+    for closures that mutate what they capture); a possible panic is reported as the string "PANIC:..."."""
     _SUB[0] += 1
     sfx = "@sub%d" % _SUB[0]
     sub = type(ex)(fn, ex.models, bound=ex.bound, variant_index=ex.variant_index, consts=ex.consts, mf=ex.mf, inline=ex.inline,
@@ -1103,7 +1104,7 @@ def subcall(ex, st, fn, argv):
     out = []
     for p in sub.run("bb0", s2):
         if p.kind == "return":
-            out.append((p.ret, list(p.st.pc[base:])))
+            out.append((p.ret, list(p.st.pc[base:]), p.st) if with_state else (p.ret, list(p.st.pc[base:])))
         elif p.kind == "panic":
             return "PANIC:" + str(p.info)[:80]
         elif p.kind == "bound":
@@ -1192,6 +1193,14 @@ def m_take(ex, st, a, dst, callee):
     if isinstance(v, Enum) and v.variant in ("Some", "None"):
         ex._write(st, a[0].root, list(a[0].projs), Enum("None"))
         return [(v, [], None)]
+    return None
+
+
+def m_res_is_ok(ex, st, a, dst, callee):
+    v = deref_val(ex, st, a[0])
+    if isinstance(v, Enum) and v.variant in ("Ok", "Err"):
+        good = v.variant == "Ok"
+        return [(TRUE if good == callee.endswith("is_ok") else FALSE, [], None)]
     return None
 
 
@@ -1428,6 +1437,7 @@ GENERIC_MODELS = [
     (r"Vec::<.*>::len$", m_vec_len),
     (r"Vec::<.*>::is_empty$", m_vec_is_empty),
     (r"mem::take::<", m_take),
+    (r"Result::<.*>::is_ok$|Result::<.*>::is_err$", m_res_is_ok),
     (r"Option::<.*>::is_none$", m_opt_is_none),
     (r"Option::<.*>::is_some$", m_opt_is_some),
 ]
